@@ -22,6 +22,7 @@
 #include <time.h>
 
 #define WORKMAX (32L << 20)
+#define GUARD 4096
 /* ------------------------------------------------------------------ tiny key=value parser */
 typedef struct { char *k[64], *v[64]; int n; } kv_t;
 static void kv_parse(char *line, kv_t *K)
@@ -47,7 +48,7 @@ static struct {
     int_t *perm_c, *perm_r, *etree, *colcnt, *part; int have_pc;
     SuperMatrix L, U; int haveLU, LUuser;      /* factors present; living in the user work buffer */
     equed_t equed; REAL *R, *C; int factver;   /* version and scaling the factors belong to */
-    void *work; long lwork;
+    void *work; long lwork; char *workbase;
     superlumt_options_t opt;
 } S;
 
@@ -211,7 +212,9 @@ static void cmd_gssv(kv_t *K)
     ck[0] = fnv(S.val, sizeof(SCALAR) * S.nnz); ck[1] = fnv(S.ind, sizeof(int_t) * S.nnz); ck[2] = fnv(S.ptr, sizeof(int_t) * (n + 1));
     live0 = vrt_mem_live_count(); thr0 = vrt_thread_count(); fd0 = vrt_fd_count(); vrt_xerbla_reset();
     vrt_log_raw("\"e\":\"CallBegin\",\"call\":\"gssv\"");
+    vrt_mem_scope(1);
     PG(gssv)(P, &S.A, S.perm_c, S.perm_r, &S.L, &S.U, &B, &info);
+    vrt_mem_scope(0);
     thr1 = vrt_thread_count(); fd1 = vrt_fd_count(); live1 = vrt_mem_live_count();
     {
 	int Aunch = ck[0] == fnv(S.val, sizeof(SCALAR) * S.nnz) && ck[1] == fnv(S.ind, sizeof(int_t) * S.nnz) && ck[2] == fnv(S.ptr, sizeof(int_t) * (n + 1));
@@ -270,6 +273,15 @@ static unsigned long out_hash(const SCALAR *x, int ldx, int nrhs, long info, dou
     return h;
 }
 /* ------------------------------------------------------------------ expert driver */
+/* nothing outside [work, work+lwork) may be written: the guard zones and the unused tail keep their fill */
+static int guards_ok(long lwork)
+{
+    long i; unsigned char *w = (unsigned char *) S.workbase;
+    for (i = 0; i < GUARD; ++i) if (w[i] != 0x5a) return 0;
+    for (i = 0; i < GUARD; ++i) if (w[GUARD + WORKMAX + i] != 0x5a) return 0;
+    if (lwork > 0 && lwork < WORKMAX) for (i = lwork; i < lwork + 4096 && i < WORKMAX; ++i) if (w[GUARD + i] != 0x5a) return 0;
+    return 1;
+}
 static trans_t tr_of(const char *s) { return s[0] == 'T' ? TRANS : s[0] == 'C' ? CONJ : NOTRANS; }
 static void cmd_gssvx(kv_t *K)
 {
@@ -309,7 +321,7 @@ static void cmd_gssvx(kv_t *K)
 	q.SymmetricMode = sym ? YES : NO; q.PrintStat = NO; q.perm_c = S.perm_c; q.perm_r = S.perm_r; q.work = 0; q.lwork = -1;
 	q.etree = S.etree; q.colcnt_h = S.colcnt; q.part_super_h = S.part;
 	PG(gssvx)(P, &q, &S.A, S.perm_c, S.perm_r, &qe, S.R, S.C, &S.L, &S.U, &QB, &QX, &qr, &qc, ferr, berr, &qm, &qinfo);
-	lwork = (long) ((double) qm.total_needed * autopct / 100.0) + 64;
+	lwork = ((long) ((double) qm.total_needed * autopct / 100.0) + 64 + 15) & ~15L;    /* a multiple of 16 bytes, as a caller would pass */
 	memcpy(S.val, vsave, sizeof(SCALAR) * S.nnz); memcpy(S.perm_c, pcs, sizeof(int_t) * n); memcpy(S.perm_r, prs, sizeof(int_t) * n);
 	Destroy_SuperMatrix_Store(&QB); Destroy_SuperMatrix_Store(&QX); SUPERLU_FREE(qb); SUPERLU_FREE(qx); free(vsave); SUPERLU_FREE(pcs); SUPERLU_FREE(prs);
     } else if (autopct) lwork = S.lwork > 0 ? S.lwork : 1;
@@ -324,7 +336,9 @@ static void cmd_gssvx(kv_t *K)
     if (S.haveLU) { SCPformat *Ls = (SCPformat *) S.L.Store; ckL = fnv(Ls->nzval_colbeg, sizeof(int_t) * n) ^ fnv(Ls->rowind_colbeg, sizeof(int_t) * n) ^ (unsigned long) Ls->nnz; }
     live0 = vrt_mem_live_count(); thr0 = vrt_thread_count(); vrt_xerbla_reset();
     vrt_log_raw("\"e\":\"CallBegin\",\"call\":\"gssvx\"");
+    vrt_mem_scope(1);
     PG(gssvx)(P, &S.opt, &S.A, S.perm_c, S.perm_r, &S.equed, S.R, S.C, &S.L, &S.U, &B, &X, &rpg, &rcond, ferr, berr, &mu, &info);
+    vrt_mem_scope(0);
     thr1 = vrt_thread_count(); live1 = vrt_mem_live_count();
     {
 	int did_fact = (fact != FACTORED) && lwork != -1 && vrt_xerbla_count == 0;
@@ -428,14 +442,14 @@ static void cmd_gssvx(kv_t *K)
 	vrt_log_raw("\"e\":\"Call\",\"call\":\"gssvx\",\"P\":%d,\"n\":%d,\"stype\":%d,\"fact\":\"%s\",\"refact\":%d,\"usepr\":%d,\"trans\":\"%c\",\"lwmode\":%d,\"nrhs\":%d,\"sym\":%d,"
 		    "\"ver\":%d,\"factver\":%d,\"info\":%ld,\"xerbla\":%d,\"xinfo\":%d,\"equed\":%d,\"Aok\":%d,\"Aunch\":%d,\"Bok\":%d,\"Xunch\":%d,\"permunch\":%d,\"Lunch\":%d,"
 		    "\"permc\":%d,\"permr\":%d,\"omega\":%ld,\"berrdev\":%ld,\"berrabs\":%ld,\"ferrok\":%ld,\"rclo\":%ld,\"rchi\":%ld,\"rpgdev\":%ld,\"cond\":%ld,"
-		    "\"rcondsmall\":%d,\"needed\":%ld,\"inside\":%d,\"thr0\":%d,\"thr1\":%d,\"live0\":%ld,\"live1\":%ld,\"u1000\":%d,\"prpc\":%d,\"outh\":\"%lx\"",
+		    "\"rcondsmall\":%d,\"needed\":%ld,\"inside\":%d,\"thr0\":%d,\"thr1\":%d,\"live0\":%ld,\"live1\":%ld,\"u1000\":%d,\"prpc\":%d,\"outh\":\"%lx\",\"reqs\":%ld,\"guard\":%d",
 		    P, n, S.stype, facts, refact, usepr, trs[0], lwork > 0 ? 1 : (int) lwork, nrhs, sym, S.ver, S.factver, (long) info, vrt_xerbla_count, vrt_xerbla_info, eqv,
 		    Aok, Aunch, Bok, Xunch, permunch, Lunch, is_perm(S.perm_c, n), S.haveLU ? is_perm(S.perm_r, n) : -1,
 		    omega, berrdev, berrabs, ferrok, rc_lo, rc_hi, rpgdev, condk,
 		    (rcond >= 0 && rcond < mach_eps()) ? 1 : 0, (long) (mu.total_needed > 2000000000.0f ? 2000000000L : (long) mu.total_needed),
 		    (S.haveLU && S.LUuser) ? ((char *) ((SCPformat *) S.L.Store)->nzval >= (char *) S.work && (char *) ((SCPformat *) S.L.Store)->nzval < (char *) S.work + S.lwork) : -1,
 		    thr0, thr1, live0, live1, (int) (u * 1000), (S.haveLU && !memcmp(S.perm_r, S.perm_c, sizeof(int_t) * n)) ? 1 : 0,
-		    out_hash(x, ldx, nrhs, info, (double) rcond, (double) rpg, ferr, berr));
+		    out_hash(x, ldx, nrhs, info, (double) rcond, (double) rpg, ferr, berr), vrt_mem_requests(), guards_ok(lwork));
     }
     Destroy_SuperMatrix_Store(&B); Destroy_SuperMatrix_Store(&X); SUPERLU_FREE(b); SUPERLU_FREE(x); free(bin); free(vin); free(Xtrue); free(B0); free(ferr); free(berr);
 }
@@ -460,7 +474,8 @@ static int run_script(const char *path, const char *out)
 {
     FILE *sf = fopen(path, "r"), *of; char *line = 0; size_t cap = 0; kv_t K;
     if (!sf) { perror(path); return 3; }
-    S.work = malloc(WORKMAX);      /* the caller's workspace, allocated before allocation tracking starts */
+    S.workbase = (char *) malloc(WORKMAX + 2 * GUARD);      /* the caller's workspace between two guard zones, allocated before tracking starts */
+    memset(S.workbase, 0x5a, WORKMAX + 2 * GUARD); S.work = S.workbase + GUARD;
     vrt_log_enable(1);
     while (getline(&line, &cap, sf) > 0) {
 	if (line[0] == '#' || line[0] == '\n') continue;
